@@ -388,7 +388,8 @@ fn big_is_u64(b: &NBig, v: u64) -> bool {
 
 fn cmp_output(ro: &RefOutput, address_raw: &[u8], mo: &NOut, rt: &RefTx, path: &str, out: &mut Vec<(String, String)>, d: &mut Diag) {
     if mo.address != address_raw {
-        out.push(("output-address-bytes-differ".into(), format!("{path}: address {} mapped to {}", hex::encode(address_raw), hex::encode(&mo.address))));
+        let fp = if mo.address.is_empty() { "output-address-dropped" } else { "output-address-bytes-reencoded-differently" };
+        out.push((fp.into(), format!("{path}: address {} mapped to {}", hex::encode(address_raw), hex::encode(&mo.address))));
     }
     if !big_is_u64(&mo.coin, ro.coin) {
         out.push(("output-coin-differs".into(), format!("{path}: coin {} mapped to {:?}", ro.coin, mo.coin)));
@@ -583,8 +584,8 @@ fn leaves() -> Vec<(String, Node)> {
     v
 }
 
-fn contexts() -> Vec<(String, Box<dyn Fn(Node) -> Node + Sync + Send>)> {
-    let w: Vec<(&str, fn(Node) -> Node)> = vec![
+fn contexts(depth: usize) -> Vec<(String, Box<dyn Fn(Node) -> Node + Sync + Send>)> {
+    let w: Vec<(&'static str, fn(Node) -> Node)> = vec![
         ("list[x]", |x| Node::array(vec![x])),
         ("list[0,x] indefinite", |x| Node::array_indef(vec![Node::uint(0), x])),
         ("map{x:0}", |x| Node::map(vec![(x, Node::uint(0))])),
@@ -593,18 +594,34 @@ fn contexts() -> Vec<(String, Box<dyn Fn(Node) -> Node + Sync + Send>)> {
         ("constr1280[x]", |x| Node::tag(1280, Node::array_indef(vec![x]))),
         ("constr102(7)[x]", |x| Node::tag(102, Node::array(vec![Node::uint(7), Node::array(vec![x])]))),
     ];
-    let mut out: Vec<(String, Box<dyn Fn(Node) -> Node + Sync + Send>)> = vec![("top".into(), Box::new(|x| x))];
-    for (n, f) in w.iter() {
-        let f = *f;
-        out.push((n.to_string(), Box::new(move |x| f(x))));
-    }
-    for (n1, f1) in w.iter() {
-        for (n2, f2) in w.iter() {
-            let (f1, f2) = (*f1, *f2);
-            out.push((format!("{n1} in {n2}"), Box::new(move |x| f2(f1(x)))));
+    // every sequence of wrappers of length 0..=depth (innermost first)
+    let mut seqs: Vec<Vec<usize>> = vec![vec![]];
+    let mut frontier: Vec<Vec<usize>> = vec![vec![]];
+    for _ in 0..depth {
+        let mut next = vec![];
+        for s in &frontier {
+            for i in 0..w.len() {
+                let mut t = s.clone();
+                t.push(i);
+                next.push(t);
+            }
         }
+        seqs.extend(next.iter().cloned());
+        frontier = next;
     }
-    out
+    seqs.into_iter()
+        .map(|seq| {
+            let name = if seq.is_empty() { "top".to_string() } else { seq.iter().map(|i| w[*i].0).collect::<Vec<_>>().join(" in ") };
+            let fs: Vec<fn(Node) -> Node> = seq.iter().map(|i| w[*i].1).collect();
+            let f: Box<dyn Fn(Node) -> Node + Sync + Send> = Box::new(move |mut x| {
+                for f in &fs {
+                    x = f(x);
+                }
+                x
+            });
+            (name, f)
+        })
+        .collect()
 }
 
 /// Block whose first transaction's first output is the map-form output
@@ -635,6 +652,9 @@ pub fn run(ctx: Ctx) -> ! {
     let mut samples: Vec<Value> = vec![];
     let mut diag = Diag { ints_checked: 0, ints_outside_i64: 0, small_in_big_form: 0 };
     let mut rejected_real: BTreeSet<String> = BTreeSet::new();
+    // violations on real artefacts are reported after the generated ones so that
+    // the first (kept) witness of a fingerprint is the small generated input
+    let mut deferred: Vec<(String, String, Value)> = vec![];
 
     // ---- real blocks
     let mut blocks = corpus::block_files();
@@ -649,7 +669,7 @@ pub fn run(ctx: Ctx) -> ! {
                 continue;
             }
             for (fp, what) in &o.problems {
-                ctx.violation(fp.clone(), what.clone(), json!({"block": a.name, "version": v.name()}));
+                deferred.push((fp.clone(), what.clone(), json!({"block": a.name, "version": v.name()})));
             }
             real_txs += o.txs;
             diag.ints_checked += o.diag.ints_checked;
@@ -684,7 +704,7 @@ pub fn run(ctx: Ctx) -> ! {
                     }
                     cmp_tx(&rt, shape == corpus::TxShape::Byron, &nt, &label, &mut problems, &mut diag);
                     for (fp, what) in problems {
-                        ctx.violation(fp, what, json!({"tx": a.name, "version": v.name(), "tx_hex": hex::encode(&a.bytes)}));
+                        deferred.push((fp, what, json!({"tx": a.name, "version": v.name(), "tx_hex": hex::encode(&a.bytes)})));
                     }
                     real_txs += 1;
                     nontrivial.insert(format!("{}|{}", v.name(), a.name));
@@ -719,7 +739,8 @@ pub fn run(ctx: Ctx) -> ! {
     };
     let bases = [("babbage-block", find_base(6)), ("conway-block", find_base(7))];
     let leaves = leaves();
-    let ctxs = contexts();
+    let depth = if ctx.thorough { 3 } else { 2 };
+    let ctxs = contexts(depth);
     let cases: Vec<(usize, usize)> = (0..leaves.len()).flat_map(|l| (0..ctxs.len()).map(move |c| (l, c))).collect();
     struct GenRes {
         datum: Vec<u8>,
@@ -788,6 +809,9 @@ pub fn run(ctx: Ctx) -> ! {
             samples.push(json!({"leaf": leaves[*l].0, "context": ctxs[*c].0, "datum_hex": hex::encode(&g.datum)}));
         }
     }
+    for (fp, what, case) in deferred {
+        ctx.violation(fp, what, case);
+    }
     if gen_accepted == 0 || diag.ints_outside_i64 == 0 || by_path.len() < 6 {
         mc_core::report::machinery_failure(&format!("vacuous generation: accepted {gen_accepted}, integers outside i64 seen {}, paths {by_path:?}", diag.ints_outside_i64));
     }
@@ -804,6 +828,7 @@ pub fn run(ctx: Ctx) -> ! {
         "diagnostic_small_values_kept_in_big_form" => diag.small_in_big_form,
         "generated_leaves" => leaves.len(),
         "generated_contexts" => ctxs.len(),
+        "generated_context_depth" => depth,
         "generated_accepted_by_path" => by_path,
         "generated_rejected_by_decode" => gen_rejected,
         "real_rejected_by_decode" => rejected_real.iter().cloned().collect::<Vec<_>>(),
@@ -816,7 +841,7 @@ pub fn run(ctx: Ctx) -> ! {
             "no-op LedgerContext (no resolved inputs, no timestamps); compared fields: tx hash, input set, outputs (address bytes, coin, assets as a multiset of policy/name/quantity), collateral return, fee (Shelley onward), validity flag and interval, datum hash / inline datum bytes / datum structure, witness-set datums, block header hash",
             "an integer is exact when the mapped Int / BigUInt / BigNInt denotes the source value (either magnitude convention accepted for BigNInt); a value within i64 that the source spelled as a bignum and the mapper keeps as big-integer bytes is only counted as a diagnostic",
             "inputs are compared as a set (the mappers emit the sorted, de-duplicated input set)",
-            "integer alphabet = boundary values in every fitting head width plus bignum byte strings; container positions to depth 2",
+            "integer alphabet = boundary values in every fitting head width plus bignum byte strings; every container position to depth 2 (quick) / 3 (thorough)",
         ],
     )
 }
